@@ -13,9 +13,12 @@ Not demanded (left out of the alphabets on purpose; the statement / documentatio
   * strict comparisons (< >) of values that are equal within the tolerance unless they are identical and written in
     the same unit (otherwise float rounding of the unit conversion decides), offsets inside (1e-7, 1e-5);
   * a literal without unit compared with a dimensional node (pinned by the tests, not stated);
-  * functions on dimensional arguments, undocumented functions (sqrt, log, tan, logb), fractional powers of
-    dimensional values, division by an exact zero, domain errors; unary minus on anything but a number literal;
-    double negation;
+  * functions on dimensional arguments - except plane angles (deg, rad, mrad literals, nodes in deg, angle
+    sub-expressions) as arguments of sin / cos, which are demanded: every operand carries its unit, so sin(90 deg) is
+    1 (with the deg factor published in the unit table, 1.7453292e-2) - angles passed to exp / log10 / pow, an angle
+    added to a plain number (`0.5 + 1 rad` is accepted by the units module, `30 deg + 0.5` is not), angle-valued
+    results; undocumented functions (sqrt, log, tan, logb), fractional powers of dimensional values, division by an
+    exact zero, domain errors; unary minus on anything but a number literal; double negation;
   * a requested unit of another dimension than the result (the units module converts reciprocal dimensions);
   * an expression result of exactly zero as a *node value* (`FloatNode.set_value` drops falsy values: that is C14's
     finding, not an expression defect), integer nodes defined by expressions (rounding is not stated);
@@ -59,6 +62,8 @@ _NODES = [
     ("b3", "int", 4, None, "b3 int = 4"),
     ("k", "int", 200, "cm", "k int = 200 cm"),
     ("x", "float", 0.75, None, "x float = 0.75"),
+    ("ang", "float", 30.0, "deg", "ang float = 30 deg"),
+    ("slope", "int", 45, "deg", "slope int = 45 deg"),
     ("f", "bool", True, None, "f bool = true"),
     ("g", "bool", False, None, "g bool = false"),
     ("s", "str", "hello", None, "s str = 'hello'"),
@@ -202,6 +207,17 @@ ARGS8 = [  # dimensionless arguments: 3, 3, 0.5, 4, 0.75, 2.5, 1.25, 4
     flat([par(flat([Ra, L50], ["+"])), L2m], ["/"]), flat([Ra, Rb, Rc], ["*", "/"]),
 ]
 ARGS3 = [Rb, flat([Ra, L50], ["/"]), flat([Rc, Ra], ["/"])]
+TRIG = ["sin", "cos"]
+Rang, Rslope, Rx = ref("ang"), ref("slope"), ref("x")
+ANG = [  # angle-valued (or angle-ratio) arguments of sin / cos: every operand carries its unit
+    lit("90", "deg"), Rang, lit("0.5", "rad"), lit("500", "mrad"), lit("30", "deg"), Rslope, lit("-60", "deg"),
+    flat([lit("2"), lit("15", "deg")], ["*"]), flat([Rang, lit("2")], ["*"]),
+    flat([lit("180", "deg"), lit("2"), Rang], ["/", "-"]), flat([Rang, lit("15", "deg")], ["+"]),
+    flat([Rx, lit("360", "deg")], ["*"]), flat([lit("1", "rad"), lit("500", "mrad")], ["-"]),
+    flat([lit("90", "deg"), lit("0.5", "rad")], ["-"]), flat([Rang, lit("15", "deg")], ["/"]),
+    flat([par(flat([Rang, lit("60", "deg")], ["+"])), lit("3")], ["/"]),
+]
+ANG4 = ANG[:4]
 POW_BASES = A9 + [par(flat([Ra, L50], ["+"])), flat([Ra, Rt], ["/"]), flat([Ra, L50], ["*"]), lit("0.25")]
 POW_EXPS = [lit("2"), lit("3"), Rb, flat([lit("3"), lit("1")], ["-"]), lit("0.5"), lit("-1"), lit("0")]
 
@@ -272,7 +288,25 @@ def g_nested(alphabet):
             yield flat([par(flat([x, par(flat([y, z], [o2]))], [o1])), w], [o3])
 
 
-def g_fn(args, ctx_alphabet, args2, mid_alphabet):
+def g_trig_mixed(angles, alphabet):
+    """sin / cos of angles combined with the other functions, with groups and in the Pythagorean identity"""
+    for a in angles:
+        for f in TRIG:
+            t = fn(f, a)
+            yield fn("exp", t)
+            yield fn("pow", t, lit("2"))
+            yield fn("pow", lit("2"), flat([t, lit("2")], ["+"]))
+            yield fn("log10", flat([t, lit("2")], ["+"]))
+            for x, y in product(alphabet, repeat=2):
+                for op in OPS:
+                    yield flat([par(flat([x, y], [op])), t], ["*"])
+                    yield flat([x, par(flat([y, t], ["*"]))], [op])
+        yield flat([fn("sin", a), fn("sin", a), fn("cos", a), fn("cos", a)], ["*", "+", "*"])
+        for b in angles[:3]:
+            yield flat([fn("sin", a), fn("cos", b), fn("cos", a), fn("sin", b)], ["*", "+", "*"])
+
+
+def g_fn(args, ctx_alphabet, args2, mid_alphabet, FNS1=FNS1):
     for f in FNS1:
         for a in args:
             yield fn(f, a)
@@ -333,6 +367,9 @@ def num_streams(tier, seed):
     S.append(("num/nested", "plain", lambda: g_nested(A2 if q else A4), False))
     S.append(("num/fn", "plain", lambda: g_fn(ARGS8, A5, ARGS3 if q else ARGS8, A2 if q else A3), False))
     S.append(("num/pow", "plain", lambda: g_pow(A5), False))
+    S.append(("num/trig", "plain", lambda: g_fn(ANG, A5, ANG4 if q else ANG, A2 if q else A3, TRIG), False))
+    S.append(("num/trig-mixed", "plain", lambda: g_trig_mixed(ANG4 if q else ANG, A2 if q else A3), False))
+    S.append(("numc/trig", "custom", lambda: g_fn(ANG4, AC4, ANG4[:2], [Rd], TRIG), False))
     # environment with a custom unit
     S.append(("numc/flat0", "custom", lambda: g_flat(0, AC6), True))
     S.append(("numc/flat1", "custom", lambda: g_flat(1, AC6), True))
@@ -363,6 +400,8 @@ def infile_num_streams(tier, seed):
     S.append(("inum/custom-fn", "custom", lambda: g_fn([flat([Rd, L2m], ["/"])], [Rd, L3], [flat([Rd, L2m], ["/"])],
                                                        [Rd])))
     S.append(("inum/api-flat1", "custom-api", lambda: g_flat(1, AC4)))
+    S.append(("inum/plain-trig", "plain", lambda: g_fn(ANG, A3, ANG4[:2], [Ra], TRIG)))
+    S.append(("inum/custom-trig", "custom", lambda: g_fn(ANG4, [Rd, L1len], ANG4[:1], [Rd], TRIG)))
     if not q:
         S.append(("inum/plain-flat3", "plain", lambda: g_flat(3, AI)))
         S.append(("inum/custom-flat3", "custom", lambda: g_flat(3, [L1len, Ra, L3])))
@@ -647,11 +686,11 @@ def _num_units(refv, envname, extra):
     if dims == R.NODIM:
         return [None]
     units = [R.si_unit(dims)]
-    if extra and dims == (1, 0):
+    if extra and dims == (1, 0, 0):
         units.append("cm")
-    if dims == (1, 0) and envname != "plain":
+    if dims == (1, 0, 0) and envname != "plain":
         units.append("[len]")
-    if extra and dims == (2, 0):
+    if extra and dims == (2, 0, 0):
         units.append("cm2")
     return units
 
@@ -1258,7 +1297,9 @@ def finish(total, tier, seed):
         bounds=dict(
             numerical="flat <=4 operators (+ - * /, blank separated); parentheses nesting <=2; functions exp log10 "
                       "sin cos pow (nesting <=2); operands 3, 2 m, 50 cm, -2 m, -3, {?a} {?b} {?c} {?t}, 1 [len], "
-                      "0.5 [len], {?d}; requested unit SI / cm / cm2 / [len] / none",
+                      "0.5 [len], {?d}; sin/cos of 16 angle arguments (deg, rad, mrad literals, float and int nodes "
+                      "in deg, products / sums / differences / ratios of angles) alone, as operands of larger "
+                      "expressions and inside exp log10 pow; requested unit SI / cm / cm2 / [len] / none",
             logical="6 comparison operators x (node, literal) pairs incl. relative offsets 1e-9, 1e-5, 1e-3 in the "
                     "same and in convertible units, both operand orders, node-node, int node vs decimal literal, "
                     "string/bool equalities; ~, !{ref}, ~!{ref}; && || with <=4 connectives, groups, nesting <=2",
@@ -1275,8 +1316,8 @@ def finish(total, tier, seed):
 
 MANIFEST = dict(
     text="Complete enumeration of three bounded DIP expression grammars (numerical: <=4 blank-separated + - * / "
-         "operators, parentheses and functions nested <=2, unit-carrying literals, node references and a custom "
-         "unit; logical: 6 comparisons incl. relative offsets 1e-9/1e-5/1e-3, negation, definedness tests, && || "
+         "operators, parentheses and functions nested <=2, unit-carrying literals incl. angle units inside sin/cos, "
+         "node references and a custom unit; logical: 6 comparisons incl. relative offsets 1e-9/1e-5/1e-3, negation, definedness tests, && || "
          "with groups; templates: references with slices and 13 format specs, plain braces, adjacent references) "
          "executed on NumericalSolver/LogicalSolver/TemplateSolver and as node values through DIP.parse, each "
          "compared with a reference evaluator over the generating AST. Coverage statement: every expression within "
